@@ -46,11 +46,11 @@ func Harness_C17_acs() {
 		case 0:
 			// the tracked URI is the path-absolute URL of the original request
 			c.index, c.reqID, c.uri = verifNondetString(t+".index"), verifNondetString(t+".reqID"), "/"+verifNondetStringNoColon(t+".uri")
-			age := 10 * time.Second
-			if verifChoose(t+".expired", 2) == 1 {
-				c.expired = true
-				age = time.Hour
-			}
+			// minted 10 s ago (live), or 100 s, 269 s or an hour ago (past the 90 s lifetime: just, a few minutes, far)
+			ages := []time.Duration{10 * time.Second, 100 * time.Second, 269 * time.Second, time.Hour}
+			ai := verifChoose(t+".expired", len(ages))
+			age := ages[ai]
+			c.expired = ai > 0
 			verifSetClock(now.Add(-age))
 			v, err := tracker.Codec.Encode(TrackedRequest{Index: c.index, SAMLRequestID: c.reqID, URI: c.uri})
 			if err != nil {
